@@ -51,6 +51,9 @@ func (l *evListener) Notify(w *ecs.World, e ecs.EntityEvent) {
 	l.seen++
 	cur, ok := l.sh.mask[e.Entity]
 	if e.EventTypes.Contains(event.EntityCreated) {
+		if ok {
+			l.errs = append(l.errs, fmt.Sprintf("a second creation event for entity %v, which was created before and not removed since", e.Entity))
+		}
 		cur = map[uint8]bool{}
 		ok = true
 	}
@@ -241,9 +244,29 @@ func eventsArm(seed uint64, rounds int) (steps int, err error) {
 				// (a listener that removes itself while the events of a batch *exchange* are being delivered
 				// crashes the unchanged library with a nil dereference in notifyQuery; no listed property
 				// speaks about that, so it is not exercised here — see DESIGN.md, observations)
-				w.NewEntity(d)
-				if err := check("create"); err != nil {
-					return steps, err
+				switch r.intn(3) {
+				case 0:
+					w.NewEntity(d)
+					if err := check("create"); err != nil {
+						return steps, err
+					}
+				case 1: // batch creation whose first callback creates one more entity of the same table
+					n := 2 + r.intn(3)
+					l.nested = func() { w.NewEntity(a, c) }
+					ecs.NewBuilder(&w, a, c).NewBatch(n)
+					l.nested = nil
+					if err := check(fmt.Sprintf("Builder(A,C).NewBatch(%d) with a nested NewEntity(A,C) in the first callback", n)); err != nil {
+						return steps, err
+					}
+				default: // the same with a relation target
+					n := 2 + r.intn(3)
+					tg := targets[r.intn(3)]
+					l.nested = func() { ecs.NewBuilder(&w, a, rel).WithRelation(rel).New(tg) }
+					ecs.NewBuilder(&w, a, rel).WithRelation(rel).NewBatch(n, tg)
+					l.nested = nil
+					if err := check(fmt.Sprintf("Builder(A,Rel).NewBatch(%d, target) with a nested New(target) into the same table in the first callback", n)); err != nil {
+						return steps, err
+					}
 				}
 			case 5: // refill
 				for i := 0; i < 3; i++ {
